@@ -73,7 +73,7 @@ func filePatchWithContext(ctx context.Context, c *Change) (fdiff.FilePatch, erro
 	}
 
 	if fIsBinary || tIsBinary {
-		return &textFilePatch{from: c.From, to: c.To}, nil
+		return &textFilePatch{from: c.From, to: c.To, binary: true}, nil
 	}
 
 	diffs := diff.Do(fromContent, toContent)
@@ -246,6 +246,9 @@ func (f *changeEntryWrapper) Empty() bool {
 type textFilePatch struct {
 	chunks   []fdiff.Chunk
 	from, to ChangeEntry
+	// binary is set when either side has binary content. It is not the same
+	// as having no chunks: adding or removing an empty file has none either.
+	binary bool
 }
 
 func (tf *textFilePatch) Files() (from, to fdiff.File) {
@@ -264,7 +267,7 @@ func (tf *textFilePatch) Files() (from, to fdiff.File) {
 }
 
 func (tf *textFilePatch) IsBinary() bool {
-	return len(tf.chunks) == 0
+	return tf.binary
 }
 
 func (tf *textFilePatch) Chunks() []fdiff.Chunk {
